@@ -321,7 +321,8 @@ fn run_case(cmds: &[Cmd], pos: usize, batch_mask: u64, window: u64, extra: Cmd, 
     }
     if let Some(Ok(rx)) = &second {
         if matches!(rx.try_recv(), Err(flume::TryRecvError::Empty)) {
-            res.viols.push(viol("C14|second-shutdown-caller-left-waiting", ctx.clone()));
+            let origin = extra_issued.as_ref().map_or("none".to_string(), |(_, is)| is.origin.clone());
+            res.viols.push(viol(format!("C14|second-shutdown-caller-left-waiting|{origin}"), ctx.clone()));
         }
     }
     // clean-up happened exactly once
